@@ -479,7 +479,11 @@ var (
 
 func loadKF() []Finding {
 	kfOnce.Do(func() {
-		b, err := os.ReadFile(filepath.Join(VerifRoot(), "known_findings.json"))
+		kfPath := filepath.Join(VerifRoot(), "known_findings.json")
+		if v := os.Getenv("VERIF_KF"); v != "" {
+			kfPath = v // development only: draft findings file
+		}
+		b, err := os.ReadFile(kfPath)
 		if err != nil {
 			return
 		}
